@@ -177,16 +177,15 @@ theorem view_closed (S : Schema) (F : Feats) (hA : Accepted S = true) (hR : Root
     enum values, navigation from any of these to any other) is identical to that of the physically
     reduced schema, for every selection tree. -/
 theorem introspect_erase (S : Schema) (F : Feats) (hA : Accepted S = true) (hR : RootsUngated S = true)
-    (hD : DirArgsVisible S F = true) (q : Sels) :
-    introspect (view S F) q = introspect (view (erase S F) top) q := by
+    (q : Sels) : introspect (view S F) q = introspect (view (erase S F) top) q := by
   unfold introspect
-  rw [evalSels_erase hA hR hD q .root trivial]
+  rw [evalSels_erase hA hR q .root trivial]
 
 /-- The same from any introspection object all of whose type names are visible. -/
 theorem introspect_erase_from (S : Schema) (F : Feats) (hA : Accepted S = true) (hR : RootsUngated S = true)
-    (hD : DirArgsVisible S F = true) (q : Sels) (n : Node) (hn : NodeVis S F n) :
+    (q : Sels) (n : Node) (hn : NodeVis S F n) :
     evalSels (view S F) q n = evalSels (view (erase S F) top) q n :=
-  evalSels_erase hA hR hD q n hn
+  evalSels_erase hA hR q n hn
 
 /-- Non-vacuity: probing the gated type by name, the possible types of `Node` and the interfaces of
     `Both` with no feature enabled — `null`, only `Pub`/`Both`, only `Node`. -/
@@ -211,41 +210,41 @@ def demoDir : Schema :=
     query := "Query", mutation := none, subscription := none,
     directives := [{ name := "paint", args := [{ name := "mode", ty := .named "Mode" }, { name := "n", ty := .named "Int" }] }] }
 
-/-- **directives_erase** — when every directive argument's type is visible to the request
-    (`DirArgsVisible S F`; in particular when no directive argument type carries features,
-    `DirArgsUngated`), the directive listing of introspection, the argument definitions the validator
-    consults and its verdict on any directive application are those of the erased schema, and the
-    listing only hands out visible types. This hypothesis is NOT implied by `Accepted`: `schema.New`
-    has no feature rule for directive arguments (open findings F-10g / F-13g, witness below). -/
-theorem directives_erase (S : Schema) (F : Feats) (hD : DirArgsVisible S F = true) :
+/-- **directives_erase** — the directive listing of introspection, the argument definitions the
+    validator and executor consult and the verdict on any directive application are those of the
+    erased schema (where an argument of a deleted type is deleted), and the listing only hands out
+    visible types. Since fix 05 (`VisibleArguments`) this needs no hypothesis beyond `Accepted`
+    (`schema.New` still has no feature rule for directive arguments; the code hides them per request). -/
+theorem directives_erase (S : Schema) (F : Feats) (hA : Accepted S = true) :
     (view (erase S F) top).directivesListing = (view S F).directivesListing ∧
     (∀ dn, (view (erase S F) top).directiveArgs dn = (view S F).directiveArgs dn) ∧
     (∀ dn args, directiveCheck (view (erase S F) top) dn args = directiveCheck (view S F) dn args) ∧
     (∀ d ∈ (view S F).directivesListing, ∀ a ∈ d.args, S.visible F a.ty.base = true) := by
-  refine ⟨directivesListing_erase hD, directiveArgs_erase hD, ?_, fun d hd => dirArgs_visible hD hd⟩
+  refine ⟨directivesListing_erase hA, directiveArgs_erase hA, ?_, directivesListing_closed hA⟩
   intro dn args
-  have : (view (erase S F) top).directiveArgs dn = (view S F).directiveArgs dn := directiveArgs_erase hD dn
+  have : (view (erase S F) top).directiveArgs dn = (view S F).directiveArgs dn := directiveArgs_erase hA dn
   simp only [directiveCheck, this]
 
-/-- The feature-independent form of the hypothesis suffices for every request. -/
-theorem directives_ungated_visible (S : Schema) (hA : Accepted S = true) (hU : DirArgsUngated S = true) (F : Feats) :
-    DirArgsVisible S F = true :=
-  dirArgsVisible_of_ungated hA hU F
+/-- Non-vacuity: the argument of the gated enum type is hidden with the feature off (and then
+    `@paint(mode:)` is an undefined argument, as in the erased schema) and shown with it on. -/
+example :
+    Accepted demoDir = true ∧
+    ((view demoDir noF).directivesListing.map (fun d => d.args.map (·.name))) = [["n"]] ∧
+    ((view demoDir onlyA).directivesListing.map (fun d => d.args.map (·.name))) = [["mode", "n"]] ∧
+    directiveCheck (view demoDir noF) "paint" ["mode", "n"] = ["undefined argument mode"] ∧
+    directiveCheck (view (erase demoDir noF) top) "paint" ["mode", "n"] = ["undefined argument mode"] ∧
+    directiveCheck (view demoDir onlyA) "paint" ["mode", "n"] = [] := by
+  decide
 
-/-- Non-vacuity: with the feature on, the witness's directive arguments are all visible, and the
-    statement applies (nothing is erased from the directive). -/
-example : Accepted demoDir = true ∧ DirArgsVisible demoDir onlyA = true ∧
-    (erase demoDir onlyA).directives = demoDir.directives := by decide
-
-/-- F-10g / F-13g (open): `schema.New` accepts a directive argument of a gated type; with the feature
-    off the listing still shows the argument and names the hidden type, the validator still knows the
-    argument — while in the erased schema the argument does not exist. -/
-theorem directives_gated_argument_differs :
-    Accepted demoDir = true ∧ DirArgsVisible demoDir noF = false ∧
-    (view demoDir noF).directivesListing ≠ (view (erase demoDir noF) top).directivesListing ∧
+/-- F-10g / F-13g before fix 05: the accessors without the feature test. With the feature off the
+    listing still shows the argument and names a type the feature-aware lookup hides, and the validator
+    still knows the argument — while in the erased schema the argument does not exist. -/
+theorem directives_unfixed_differs :
+    (viewDirectivesUnfixed demoDir noF).directivesListing ≠
+      (viewDirectivesUnfixed (erase demoDir noF) top).directivesListing ∧
     (view demoDir noF).lookupF "Mode" = none ∧
-    directiveCheck (view demoDir noF) "paint" ["mode"] = [] ∧
-    directiveCheck (view (erase demoDir noF) top) "paint" ["mode"] = ["undefined argument mode"] := by
+    directiveCheck (viewDirectivesUnfixed demoDir noF) "paint" ["mode"] = [] ∧
+    directiveCheck (viewDirectivesUnfixed (erase demoDir noF) top) "paint" ["mode"] = ["undefined argument mode"] := by
   decide
 
 /-! ## Lookups used by validation and execution -/
